@@ -233,6 +233,9 @@ func checkSleep(c SleepCase, ctx *vcommon.Ctx) *vcommon.Failure {
 	if m.kind == "allowed" && c.DurNs > 0 && ((c.HasMax && c.MaxNs == c.DurNs) || c.CeilingNs == c.DurNs) {
 		ctx.Class("allowed:duration-equals-cap")
 	}
+	if m.kind == "allowed" && c.DurNs <= 0 {
+		ctx.Class("allowed:nonpositive-duration")
+	}
 	ctx.Class("ctx:" + c.Ctx)
 	if m.active >= 2 {
 		ctx.NonTrivial(fmt.Sprintf("%+v", c))
@@ -377,7 +380,7 @@ func drawCap(t *rapid.T, label string) int64 {
 
 func drawSleepRefuse(t *rapid.T) SleepCase {
 	var c SleepCase
-	c.Leg = rapid.SampledFrom([]string{"default-cap", "ceiling-below-default", "max-cap", "max-cap", "max-over-ceiling", "max-over-ceiling", "max-nonpositive", "deadline", "deadline", "deadline+cap", "expired"}).Draw(t, "leg")
+	c.Leg = rapid.SampledFrom([]string{"default-cap", "ceiling-below-default", "max-cap", "max-cap", "max-over-ceiling", "max-over-ceiling", "max-nonpositive", "deadline", "deadline", "deadline+cap", "expired", "nonpositive"}).Draw(t, "leg")
 	switch c.Leg {
 	case "default-cap":
 		c.CeilingNs = rapid.SampledFrom([]int64{0, 0, -1, math.MinInt64, nsHour, nsHour + 1, 2 * nsHour, math.MaxInt64}).Draw(t, "ceil")
@@ -462,6 +465,39 @@ func drawSleepRefuse(t *rapid.T) SleepCase {
 			c.HasMax = true
 			c.MaxNs = drawCap(t, "max")
 		}
+	case "nonpositive":
+		// The complement, in bulk and without real sleeping: a non-positive
+		// duration is above no cap and returns at once, so whatever the cap
+		// arithmetic decides about it -- incl. durations next to the minimum
+		// Duration and a :max EQUAL to the ceiling -- shows in the outcome.
+		switch rapid.IntRange(0, 3).Draw(t, "dk") {
+		case 0:
+			c.DurNs = rapid.SampledFrom([]int64{0, -1, -nsMilli, -nsSecond, -nsHour, -nsHour - 1, -2 * nsHour, math.MinInt64, math.MinInt64 + 1}).Draw(t, "d")
+		case 1:
+			c.DurNs = math.MinInt64 + rapid.Int64Range(0, 10*nsHour).Draw(t, "dlow")
+		default:
+			c.DurNs = rapid.Int64Range(math.MinInt64, 0).Draw(t, "d")
+		}
+		switch rapid.IntRange(0, 5).Draw(t, "cfg") {
+		case 0:
+		case 1:
+			c.HasMax, c.MaxNs = true, drawCap(t, "max")
+		case 2:
+			c.CeilingNs = drawCap(t, "ceil")
+		case 3:
+			c.HasMax, c.MaxNs = true, drawCap(t, "max")
+			c.CeilingNs = c.MaxNs // :max equal to the ceiling is usable
+		case 4:
+			c.HasMax, c.MaxNs = true, drawCap(t, "max")
+			c.CeilingNs = c.MaxNs + rapid.Int64Range(0, math.MaxInt64-c.MaxNs).Draw(t, "ceilup")
+		default: // :max above the ceiling: the property does not decide (see modelSleep)
+			c.CeilingNs = drawCap(t, "ceil")
+			if c.CeilingNs > math.MaxInt64-2 {
+				c.CeilingNs = nsHour
+			}
+			c.HasMax, c.MaxNs = true, rapid.Int64Range(c.CeilingNs+1, math.MaxInt64).Draw(t, "max")
+		}
+		drawCtxFree(t, &c)
 	}
 	return c
 }
